@@ -119,22 +119,50 @@ def summary(obs, rows=None):
     ending = {}
     for i, f in obs['final'].items():
         ending[int(i)] = [len(recorded.get(int(i), ())), 'complete' if f['maxInv'] >= f['N'] else 'abandoned']
-    return {'starts': starts, 'rows': sorted(rows), 'ending': ending}
+    return {'starts': starts, 'commands': sorted(obs.get('commands') or []), 'rows': sorted(rows), 'ending': ending}
 
 
 def contiguous(rows):
-    """every data point = one 'alloc' line directly followed by its 'total' line (same run, inv, iteration)"""
+    """every data point = consecutive lines of one (run, invocation, iteration), the 'total' line last
+    (RebenchLog scenarios: alloc, total; Time adapter: MaxRSS, total or user, sys, total)"""
     bad = []
     i = 0
     while i < len(rows):
-        a = rows[i]
-        b = rows[i + 1] if i + 1 < len(rows) else None
-        if a[0] == -2 or a[3] != 'alloc' or b is None or b[3] != 'total' or b[:3] != a[:3]:
-            bad.append({'at': i, 'line': a, 'next': b})
-            i += 1
-        else:
-            i += 2
+        j = i
+        while j < len(rows) and rows[j][0] != -2 and rows[j][3] != 'total':
+            j += 1
+        if j >= len(rows) or rows[j][0] == -2:
+            bad.append({'at': i, 'line': rows[i], 'reason': 'data point without total line'})
+            i = j + 1
+            continue
+        key = rows[j][:3]
+        for x in range(i, j):
+            if rows[x][:3] != key:
+                bad.append({'at': x, 'line': rows[x], 'total_line': rows[j]})
+                break
+        i = j + 1
     return bad
+
+
+def time_adapter_scenario(rng, n_min, n_max, parallel):
+    """runs measured with the Time adapter (wrapped by a `time` binary whose availability is probed first)"""
+    n = rng.randint(n_min, n_max)
+    runs, scripts = [], []
+    for i in range(n):
+        r = {'N': rng.randint(1, 3), 'retries': rng.choice([0, 1, 2]), 'exe': i, 'excl': not parallel, 'gauge': 'Time'}
+        kind = rng.choice(['ok', 'ok', 'flaky', 'fails'])
+        sc = []
+        for k in range(r['N'] + 6):
+            if kind == 'ok' or (kind == 'flaky' and rng.random() < 0.6):
+                sc.append({'rc': 0, 'dps': 1})
+            else:
+                sc.append(dict(rng.choice([{'rc': 1, 'dps': 0}, {'rc': 0, 'dps': 0}, {'rc': 2, 'dps': 1}])))
+        runs.append(r)
+        scripts.append(sc)
+    probe = rng.choice([{}, {}, {'/usr/bin/time': 1, '/opt/local/bin/gtime': 0},
+                        {'/usr/bin/time': 1, '/opt/local/bin/gtime': 1},
+                        {'/usr/bin/time': 'oserror', '/opt/local/bin/gtime': 'oserror'}])
+    return {'runs': runs, 'time_probe': probe}, scripts
 
 
 def session_ok(ck, inp, obs):
@@ -149,7 +177,7 @@ def session_ok(ck, inp, obs):
 
 def compare_with_batch(ck, inp, ref, obs, what, n127):
     a, b = summary(ref), summary(obs)
-    for key in ('starts', 'rows', 'ending'):
+    for key in ('starts', 'commands', 'rows', 'ending'):
         if a[key] != b[key]:
             extra = [x for x in b[key] if x not in a[key]] if key != 'ending' else b[key]
             missing = [x for x in a[key] if x not in b[key]] if key != 'ending' else a[key]
@@ -176,7 +204,7 @@ def sequential_scenario(ck, scn, scripts, seeds, tag):
     ref = None
     for sched, choices in plans:
         wd = c04._mkwd(ck)
-        sess = {'sched': sched, 'choices': choices, 'scripts': scripts, 'cpu': 1, 'builds': scn.get('fail_builds') or {}}
+        sess = {'sched': sched, 'choices': choices, 'scripts': scripts, 'cpu': 1, 'builds': scn.get('fail_builds') or {}, 'time_probe': scn.get('time_probe')}
         inp = {'kind': 'sequential', 'scn': scn, 'scripts': scripts, 'sched': sched, 'choices': choices}
         obs = ds.run_session(wd, scn, sess)
         ck.impl_traces += 1
@@ -203,13 +231,14 @@ def parallel_scenario(ck, scn, scripts, cpu, schedules, tag, ref=None, local='ba
     bf = build_failed_runs(scn)
     if ref is None:
         wd = c04._mkwd(ck)
-        ref = ds.run_session(wd, scn, {'sched': 'batch', 'scripts': scripts, 'cpu': 1, 'builds': scn.get('fail_builds') or {}})
+        ref = ds.run_session(wd, scn, {'sched': 'batch', 'scripts': scripts, 'cpu': 1, 'builds': scn.get('fail_builds') or {}, 'time_probe': scn.get('time_probe')})
         ck.impl_traces += 1
         if not session_ok(ck, {'kind': 'parallel-ref', 'scn': scn, 'scripts': scripts}, ref):
             return
     for schedule in schedules:
         wd = c04._mkwd(ck)
         sess = {'sched': local, 'scripts': scripts, 'cpu': cpu, 'schedule': schedule, 'builds': scn.get('fail_builds') or {},
+                'time_probe': scn.get('time_probe'),
                 'choices': [ck.rng.randrange(64) for _ in range(160)] if local == 'random' else []}
         inp = {'kind': 'parallel', 'scn': scn, 'scripts': scripts, 'cpu': cpu, 'schedule': schedule, 'local': local}
         obs = ds.run_session(wd, scn, sess)
@@ -217,13 +246,15 @@ def parallel_scenario(ck, scn, scripts, cpu, schedules, tag, ref=None, local='ba
         if not session_ok(ck, inp, obs):
             return
         ck.count('parallel:T=%s' % obs.get('T'))
+        if obs.get('probes'):
+            ck.count('time-probes-in-session:%d' % len(obs['probes']))
         ck.count('parallel:runs=%d' % len(scn['runs']))
         ck.case(nontrivial_key=(tag, json.dumps(scn, sort_keys=True), cpu, str(schedule)),
                 sample={'runs': len(scn['runs']), 'T': obs.get('T'), 'steps': obs['steps'][:10]})
         compare_with_batch(ck, inp, ref, obs, 'parallel', n127)
         check_chunks(ck, inp, scn, obs, cpu)
         if not n127:
-            picks = [st[1] for st in obs['steps']]
+            picks = [st[1] for st in obs['steps'] if st[0] in ('start', 'finish')]
             op = c04.session_op('c11.exec', scn, sess, obs['order'])
             op['picks'] = picks
             # runs whose build fails never start a process: the half-step system (no builds) is not asked about them
@@ -356,7 +387,7 @@ def run(ck):
                'executables) x {batch, round-robin, random x %d recorded choice streams}; parallel scheduler with 2-12 '
                'non-exclusive runs (some with exclusive ones), batch / round-robin / random as thread-local scheduler, cpu_count 2/3/5/8/16 (1, 1, 2, 3, 6 worker threads), %s sampled release '
                'schedules under the thread controller, %s; free-running parallel sessions with a yielding data-file '
-               'object; a third of the sequential and half of the parallel scenarios have executor builds (shared) and suite builds (private), succeeding and failing; scenarios with a 127 outcome for the recorded finding. non-trivial = more than one run, distinct by '
+               'object; sequential and parallel scenarios measured with the Time adapter (availability probe of the time binaries scripted, and a scheduling point under the controller); a third of the sequential and half of the parallel scenarios have executor builds (shared) and suite builds (private), succeeding and failing; scenarios with a 127 outcome for the recorded finding. non-trivial = more than one run, distinct by '
                'scenario and schedule'
                % ((36, 10, '~200', 'all interleavings of a 2-run scenario') if quick else
                   (110, 40, '~6000', 'all interleavings of 2-run scenarios and of a 3-run scenario (3^7 release schedules)')))
@@ -372,6 +403,11 @@ def run(ck):
             if scn['fail_builds']:
                 ck.count('scenario-with-failing-build')
         sequential_scenario(ck, scn, scripts, 10 if quick else 40, 'seq')
+    # (1b) Time adapter, sequential schedulers
+    for i in range(4 if quick else 30):
+        scn, scripts = time_adapter_scenario(rng, 2, 4, False)
+        ck.count('time-adapter-scenario')
+        sequential_scenario(ck, scn, scripts, 3 if quick else 10, 'seq-time')
     # (2) parallel, exhaustive for small scenarios
     small = [(2, 5)] if quick else [(2, 5), (2, 8), (3, 8)]
     for n, cpu in small:
@@ -397,6 +433,14 @@ def run(ck):
         schedules = [[rng.randrange(12) for _ in range(200)] for _ in range(per)]
         # the thread-local scheduler of the workers: batch, round-robin or random
         parallel_scenario(ck, scn, scripts, cpu, schedules, 'par', local=['batch', 'round-robin', 'random'][i % 3])
+    # (3b) parallel with the Time adapter: the availability probe is a scheduling point, so other workers
+    #      build their command lines and run processes while the first worker is still probing
+    for i in range(8 if quick else 80):
+        scn, scripts = time_adapter_scenario(rng, 2, 6, True)
+        ck.count('time-adapter-parallel-scenario')
+        schedules = [[rng.randrange(12) for _ in range(120)] for _ in range(4 if quick else 12)]
+        parallel_scenario(ck, scn, scripts, rng.choice([5, 8, 16]), schedules, 'par-time',
+                          local=['batch', 'round-robin', 'random'][i % 3])
     # (4) free running with yielding writes
     for i in range(6 if quick else 60):
         n = rng.randint(4, 10)
